@@ -10,7 +10,7 @@
 EXTENDS BarLoop, TLC, Json, IOUtils
 
 CONSTANTS Level,          \* 1 quick universe, 2 thorough universe, 3 deep (simulation) universe
-          MaxChoice,      \* budget of non-default strategy choices in one run (op, trigger fires, retires, update emits)
+          MaxChoice,      \* budget of non-default strategy choices in one run (op, trigger fires, retires, update emits); Level 1 fixes it per configuration
           MaxOpsPerHook,  \* user operations in one hook invocation
           MaxEmit         \* records one market update may emit
 
@@ -20,27 +20,33 @@ vars == <<c, st, hist, nch, hops>>
 A(cb) == [h |-> FALSE, cb |-> cb]      \* minutely market
 H(cb) == [h |-> TRUE, cb |-> cb]       \* hourly market
 
-Cfg(s, iv, len, mk, nt) == [s |-> s, iv |-> iv, len |-> len, mk |-> mk, nt |-> nt]
+Cfg(s, iv, len, mk, nt, bud) == [s |-> s, iv |-> iv, len |-> len, mk |-> mk, nt |-> nt, bud |-> bud]
 
 (* grids: [s, iv, len]; every grid contains an hour stamp so that an hourly market has data *)
 Configs ==
   IF Level = 1 THEN
-    { Cfg(59, 1, 3, <<A(TRUE), H(FALSE)>>, 1),      \* 59 60 61: hourly market open in the middle bar only
-      Cfg(53, 5, 9, <<H(TRUE), A(FALSE)>>, 0),      \* 53..61 -> 50 55 60, start not aligned, hourly first (default market)
-      Cfg(58, 60, 4, <<A(FALSE), H(TRUE)>>, 1),     \* 58..61 -> 0 60
-      Cfg(0, 1, 2, <<A(FALSE)>>, 2) }               \* single market, two triggers, hour stamp at bar 0
+    { Cfg(59, 1, 3, <<A(TRUE), H(FALSE)>>, 1, 1),    \* 59 60 61: hourly market open in the middle bar only
+      Cfg(53, 5, 9, <<H(TRUE), A(FALSE)>>, 0, 1),    \* 53..61 -> 50 55 60, start not aligned, hourly first (default market)
+      Cfg(58, 60, 4, <<A(FALSE), H(TRUE)>>, 1, 1),   \* 58..61 -> 0 60
+      Cfg(0, 1, 2, <<A(FALSE)>>, 0, 3),              \* small: all triples of choices
+      Cfg(60, 1, 2, <<H(FALSE), A(TRUE)>>, 0, 2) }   \* all pairs of choices on a mixed configuration
   ELSE IF Level = 2 THEN
-    { Cfg(g[1], g[2], g[3], mk, nt) :
-        g \in {<<59, 1, 3>>, <<0, 1, 4>>, <<53, 5, 9>>, <<50, 5, 15>>, <<58, 60, 4>>, <<0, 60, 121>>},
-        mk \in {<<A(TRUE)>>, <<A(TRUE), H(FALSE)>>, <<H(TRUE), A(FALSE)>>, <<A(FALSE), A(TRUE)>>},
-        nt \in {0, 1} }
+    { Cfg(59, 1, 3, <<A(TRUE), H(FALSE)>>, 1, 2),   \* all pairs of choices on each grid kind / mix
+      Cfg(53, 5, 9, <<H(TRUE), A(FALSE)>>, 0, 2),
+      Cfg(58, 60, 4, <<A(FALSE), H(TRUE)>>, 1, 2),
+      Cfg(0, 1, 3, <<A(TRUE)>>, 1, 2),
+      Cfg(50, 5, 15, <<A(FALSE), A(TRUE)>>, 0, 2),
+      Cfg(0, 60, 121, <<A(TRUE), H(FALSE)>>, 0, 2),
+      Cfg(59, 1, 2, <<H(TRUE), A(TRUE)>>, 2, 2),     \* two triggers
+      Cfg(0, 1, 2, <<A(TRUE)>>, 0, 3),               \* all triples
+      Cfg(0, 1, 6, <<A(FALSE)>>, 0, 1) }             \* six bars
   ELSE
-    { Cfg(g[1], g[2], g[3], mk, nt) :
+    { Cfg(g[1], g[2], g[3], mk, nt, MaxChoice) :
         g \in {<<58, 1, 6>>, <<0, 1, 5>>, <<119, 1, 4>>, <<47, 5, 27>>, <<55, 5, 30>>, <<58, 60, 130>>, <<0, 60, 300>>, <<1, 60, 60>>},
         mk \in {<<A(TRUE)>>, <<A(TRUE), H(TRUE)>>, <<H(TRUE), A(TRUE)>>, <<A(FALSE), A(TRUE)>>, <<A(TRUE), H(FALSE), A(FALSE)>>},
         nt \in {0, 1, 2} }
 
-NoCfg == Cfg(0, 1, 1, <<A(FALSE)>>, 0)
+NoCfg == Cfg(0, 1, 1, <<A(FALSE)>>, 0, 0)
 
 Init == /\ c = NoCfg
         /\ st = [InitSt(NoCfg) EXCEPT !.phase = "Pick"]
@@ -53,7 +59,7 @@ Pick == /\ st.phase = "Pick"
 
 Take(ev, cost, isop) ==
   LET r == Step(c, st, ev) IN
-  /\ nch + cost <= MaxChoice
+  /\ nch + cost <= c.bud
   /\ r.ok
   /\ st' = r.st
   /\ hist' = Append(hist, Pack(ev))
